@@ -673,7 +673,13 @@ class Exec:
                     return v
                 return LVar(vid)
             # global / static member
-            q = self.tu.globals.get(vid) or rd.get('name')
+            q = self.tu.globals.get(vid)
+            if q is None:
+                # the declaration is not part of this dump (helper dumped by name): take the qualified spelling from the source text
+                q = self.spelled_name(n)
+                if q is None and getattr(self.tu, 'is_helper', False):
+                    raise ExtractionError(f'{self.unit}: file-local helper refers to {rd.get("name")} without qualification: which declaration that is cannot be told from a dump by name (line {self.curline})')
+                q = q or rd.get('name')
             return self.global_lv(st, q, rd)
         if k == 'EnumConstantDecl':
             return self.enum_const(rd, n)
@@ -1454,6 +1460,10 @@ class Exec:
         owner = None
         if fdecl is None and self.aux_tus:
             fdecl, owner = self.find_def_aux(objn, rd, method)
+        if fdecl is None and objn is None and rd.get('name') and not (q or '').startswith('std::'):
+            # a free function of the same file outside namespace vfps (file-local helper in an anonymous namespace, global static):
+            # the vfps:: dump does not contain it -- dump it by name from the same translation unit (one more clang run)
+            fdecl, owner = self.find_def_local_helper(rd)
         if fdecl is not None:
             if self.inline_depth >= 4:
                 raise ExtractionError(f'{self.unit}: inlining depth exceeded at {q}')
@@ -1491,6 +1501,55 @@ class Exec:
                 if f.get('previousDecl') == rd.get('id') or f.get('id') == rd.get('id'):
                     return f
         return None
+
+    def spelled_name(self, n):
+        try:
+            b, e = n['range']['begin'], n['range']['end']
+            ob_ = b.get('offset', (b.get('expansionLoc') or {}).get('offset'))
+            oe_ = e.get('offset', (e.get('expansionLoc') or {}).get('offset'))
+            tl = e.get('tokLen', (e.get('expansionLoc') or {}).get('tokLen', 0))
+            txt = open(self.tu.path, 'rb').read()[ob_:oe_ + tl].decode('utf-8', 'replace')
+            import re as _re
+            txt = _re.sub(r'\s+', '', txt)
+            return txt if _re.fullmatch(r'(::)?[A-Za-z_][A-Za-z0-9_]*(::[A-Za-z_][A-Za-z0-9_]*)+', txt) else None
+        except Exception:
+            return None
+
+    def find_def_local_helper(self, rd):
+        from .ast import TU, line_of as _line_of
+        name = rd['name']
+        cache = self.tu.__dict__.setdefault('_helper_tus', {})
+        if name not in cache:
+            try:
+                cache[name] = TU(self.tu.relpath, self.scratch_dir(), name)
+            except ExtractionError:
+                cache[name] = None
+        tu2 = cache[name]
+        if tu2 is None:
+            return None, None
+        tu2.is_helper = True
+        want_line = (rd.get('loc') or {}).get('line')
+        cands = [f for q_, fl in tu2.funcs.items() for f in fl if q_.split('::')[-1] == name and len(params(f)) == len([c for c in rd.get('inner', []) if c.get('kind') == 'ParmVarDecl'] or params(f))]
+        # only definitions that live in this very source file (not a library function of the same name)
+        cands = [f for f in cands if self._in_main_file(f)]
+        if len(cands) == 1:
+            return cands[0], tu2
+        return None, None
+
+    def _in_main_file(self, f):
+        loc = f.get('loc') or {}
+        inc = loc.get('includedFrom') or (loc.get('spellingLoc') or {}).get('includedFrom') or (loc.get('expansionLoc') or {}).get('includedFrom')
+        fl = loc.get('file') or (loc.get('spellingLoc') or {}).get('file') or (loc.get('expansionLoc') or {}).get('file')
+        return inc is None and (fl is None or fl.endswith(self.tu.relpath))
+
+    def scratch_dir(self):
+        import tempfile, os as _os
+        d = getattr(self.tu, 'scratch', None)
+        if d and _os.path.isdir(d):
+            return d
+        if not hasattr(self, '_own_scratch'):
+            self._own_scratch = tempfile.mkdtemp(prefix='vfhelper')
+        return self._own_scratch
 
     @staticmethod
     def recv_class(objn):
